@@ -139,8 +139,17 @@ pub fn run(ctx: &mut Ctx) {
                 dev.handle_request(&m);
             }
             // response kinds: normal (1..n docs), unheld docs only, nothing permitted, malformed request -> error response
-            let kind = (round + ci) % 4;
+            let kind = (round + ci) % 5;
             match kind {
+                4 => {
+                    // several document types at once that the holder does not hold, and several it holds but withholds entirely
+                    let unheld = ["org.unheld.a", "org.unheld.b", "org.unheld.c"];
+                    let mut reqs: Vec<ItemsRequest> = unheld.iter().map(|d| ItemsRequest { doc_type: d.to_string(), namespaces: sess::simple_namespaces(&["a"]), request_info: None }).collect();
+                    for d in held_types.iter() { reqs.push(ItemsRequest { doc_type: d.clone(), namespaces: sess::simple_namespaces(&["family_name"]), request_info: None }); }
+                    // permitted: the unheld ones (document errors expected) and at most the first held one; the other held ones are withheld
+                    let mut permit: Vec<&str> = unheld.to_vec(); if round % 2 == 0 { if let Some(h) = held_types.first() { permit.push(h.as_str()); } }
+                    dev.prepare_response(&reqs, sess::permit_all(&permit, &["a", "family_name"]));
+                }
                 0 | 1 => {
                     let take = if kind == 0 { 1 } else { held_types.len() };
                     let dts: Vec<&str> = held_types.iter().take(take).map(|s| s.as_str()).collect();
